@@ -26,3 +26,25 @@ def conclude(chk, disagreements, search):
         chk.violation("proof obligation or correspondence no longer checks; no failing input found",
                       {"broken": chk.broken, "first_disagreements": disagreements[:5]}, found_input=False, tag="unproved")
     return chk.finish()
+
+
+def replay_items(chk):
+    """the recorded inputs of a `--replay` run (None in an ordinary run): the payload itself, or the disagreements it lists"""
+    p = getattr(chk, "replay_payload", None)
+    if p is None:
+        return None
+    items = p.get("first_disagreements") or [p]
+    return [it for it in items if isinstance(it, dict)]
+
+
+def replay_asts(chk):
+    it = replay_items(chk)
+    return None if it is None else [x["ast"] for x in it if isinstance(x.get("ast"), dict)]
+
+
+def replay_inputs(chk, stream=None):
+    """recorded line-protocol inputs (optionally of one stream)"""
+    it = replay_items(chk)
+    if it is None:
+        return None
+    return [x["input"] for x in it if isinstance(x.get("input"), str) and (stream is None or x.get("stream", stream) == stream)]
